@@ -51,3 +51,36 @@ def silence():
     import loki.logging as ll
     ll.logger.setLevel(logging.CRITICAL)
     logging.getLogger('loki').setLevel(logging.CRITICAL)
+
+
+_AST = {}
+
+
+def cache_fparser_ast():
+    """Memoise the fparser parse tree per source text for `Sourcefile.from_fparser` (the tree is a
+    deterministic function of the text and Loki's IR construction only reads it).  Checks that use
+    this must validate it once per run with `ast_cache_is_transparent`."""
+    import loki.sourcefile as sfmod
+    import loki.frontend.fparser as fp
+    if getattr(sfmod.parse_fparser_source, '_vf_cached', False):
+        return
+    real = fp.parse_fparser_source
+
+    def cached(source):
+        ast = _AST.get(source)
+        if ast is None:
+            if len(_AST) > 400:
+                _AST.clear()
+            ast = _AST[source] = real(source)
+        return ast
+    cached._vf_cached = True     # pylint: disable=protected-access
+    cached._vf_real = real       # pylint: disable=protected-access
+    sfmod.parse_fparser_source = cached
+
+
+def uncache_fparser_ast():
+    import loki.sourcefile as sfmod
+    real = getattr(sfmod.parse_fparser_source, '_vf_real', None)
+    if real is not None:
+        sfmod.parse_fparser_source = real
+    _AST.clear()
